@@ -13,8 +13,8 @@ var propOrder = []string{"C01", "C02", "C03", "C04", "C05", "C06", "C07", "C08",
 
 var props = map[string]*PropDef{
 	"C01": {
-		Rules:      []string{"MATRIX", "KIND-1", "DEPTH-1", "MAPCACHE-1", "TXN-1", "CASE-SYM", "NUMSTATE-1", "TXN-2", "TXN-3", "PAIR-1", "FULL-1", "SURR-1", "EOF-1", "CTRL-1"},
-		Decided:    "the sibling recognisers (token path, value path, raw-value path) agree on which checks exist and which option controls them (duplicate names under exactly AllowDuplicateNames, UTF-8 validation unless exactly AllowInvalidUTF8, string-only names, exhaustive kind dispatch with failing defaults, the RFC 8259 start-byte table); the depth limit is the same in all six guards and each guard is evaluated on every path; io.EOF is only produced at depth 1; the duplicate-name set stays complete when it switches to a map; hexadecimal/exponent letters are matched case-insensitively; the resumable number scanner's resume states match what it consumed. Also: name namespaces are pushed and popped in balance and never mutated on a rejected ReadToken/ReadValue; a two-byte marker such as \\u is matched with a consistent ==&&== / !=||!= test; scanner validators' consumed length is never discarded; utf16.DecodeRune's verdict is checked; io.EOF is only produced at depth 1 on an identity test with the scanner's own sentinel. Every ordered comparison with 0x20 in the scanners keeps the space itself on the non-control side.",
+		Rules:      []string{"MATRIX", "KIND-1", "DEPTH-1", "MAPCACHE-1", "TXN-1", "CASE-SYM", "NUMSTATE-1", "TXN-2", "TXN-3", "PAIR-1", "FULL-1", "SURR-1", "EOF-1", "CTRL-1", "GUARD-1"},
+		Decided:    "the sibling recognisers (token path, value path, raw-value path) agree on which checks exist and which option controls them (duplicate names under exactly AllowDuplicateNames, UTF-8 validation unless exactly AllowInvalidUTF8, string-only names, exhaustive kind dispatch with failing defaults, the RFC 8259 start-byte table); the depth limit is the same in all six guards and each guard is evaluated on every path; io.EOF is only produced at depth 1; the duplicate-name set stays complete when it switches to a map; hexadecimal/exponent letters are matched case-insensitively; the resumable number scanner's resume states match what it consumed. Also: name namespaces are pushed and popped in balance and never mutated on a rejected ReadToken/ReadValue; a two-byte marker such as \\u is matched with a consistent ==&&== / !=||!= test; scanner validators' consumed length is never discarded; utf16.DecodeRune's verdict is checked; io.EOF is only produced at depth 1 on an identity test with the scanner's own sentinel. Every ordered comparison with 0x20 in the scanners keeps the space itself on the non-control side. Short-circuit length guards in front of constant indexes are exact in the tokenizer packages.",
 		NotDecided: "that each lexical recogniser accepts exactly its RFC production (index arithmetic of ConsumeString/ConsumeNumber beyond the structural facts above).",
 		Technique:  "sibling-implementation matrix over type-checked syntax; constant/table evaluation; path-sensitive go/cfg dataflow for guards",
 	},
@@ -31,8 +31,8 @@ var props = map[string]*PropDef{
 		Technique:  "guard dominance; value-provenance tracing over definitions; path-sensitive equality tracking in makeString",
 	},
 	"C04": {
-		Rules:      []string{"CODEC-1", "FLAGSYM-1", "ALIAS-1", "FIELD-1", "POOL-2", "FLAGMASK-1", "FLAGPAIR-1", "NUMWIDTH-1"},
-		Decided:    "writer and reader tables agree for every alternative representation: identical accepted format strings, each base16/32/64 encode/decode/len triple bound to one encoding and chosen consistently, same default encoding, same initFormat and base cases for time/duration, same bit size for formatting and parsing; marshal and unmarshal siblings consult the same two-sided options; struct field index paths are not aliased. A block entered under Flags.Has(mask) consults only flags of that mask and marshal/unmarshal siblings test the same masks; pooled namespace state is reset unconditionally. Conversions use the type's width in both directions.",
+		Rules:      []string{"CODEC-1", "FLAGSYM-1", "ALIAS-1", "FIELD-1", "POOL-2", "FLAGMASK-1", "FLAGPAIR-1", "NUMWIDTH-1", "SCRATCH-1", "FULL-1"},
+		Decided:    "writer and reader tables agree for every alternative representation: identical accepted format strings, each base16/32/64 encode/decode/len triple bound to one encoding and chosen consistently, same default encoding, same initFormat and base cases for time/duration, same bit size for formatting and parsing; marshal and unmarshal siblings consult the same two-sided options; struct field index paths are not aliased. A block entered under Flags.Has(mask) consults only flags of that mask and marshal/unmarshal siblings test the same masks; pooled namespace state is reset unconditionally. Conversions use the type's width in both directions. A scratch value handed to an unmarshal function was reset since its last use; the verdict of jsonwire.ParseUint is never discarded.",
 		NotDecided: "value equality after a round trip, float bits, time arithmetic (all arithmetic on runtime values).",
 		Technique:  "sibling agreement between marshal/unmarshal closures; table evaluation",
 	},
@@ -55,14 +55,14 @@ var props = map[string]*PropDef{
 		Technique:  "path-sensitive go/cfg dataflow; table agreement",
 	},
 	"C08": {
-		Rules:      []string{"NS-1", "NS-2", "NS-3", "MATRIX", "MAPCACHE-1", "TXN-1", "MERGE-1", "POOL-2", "TXN-2", "TXN-3", "FP-2", "VERB-1", "PREC-1", "NS-4"},
-		Decided:    "every place that switches the coder's duplicate check off tracks names another way (struct seen-set, map key presence plus seen-set for pre-populated maps, untyped map), under no option other than AllowDuplicateNames; unknown/fallback members are inserted into the namespace before being skipped; encoder namespaces are only disabled for key kinds with a unique representation and no custom key marshaler; disabled namespaces are invalidated after a failed top-level call; all recogniser paths check duplicates and UTF-8 under exactly their option; the namespace's map cache stays complete. Namespaces are balanced and untouched by rejected calls; the struct member-name fast path is only reachable with the namespace disabled and unique names by construction. Names taken verbatim for the duplicate check come from the scanner's verdict on the same bytes. DisableNamespace never hits the parent frame (it follows the opening ReadToken/WriteToken on all paths).",
+		Rules:      []string{"NS-1", "NS-2", "NS-3", "MATRIX", "MAPCACHE-1", "TXN-1", "MERGE-1", "POOL-2", "TXN-2", "TXN-3", "FP-2", "VERB-1", "PREC-1", "NS-4", "SEENSET-1", "FIELD-1"},
+		Decided:    "every place that switches the coder's duplicate check off tracks names another way (struct seen-set, map key presence plus seen-set for pre-populated maps, untyped map), under no option other than AllowDuplicateNames; unknown/fallback members are inserted into the namespace before being skipped; encoder namespaces are only disabled for key kinds with a unique representation and no custom key marshaler; disabled namespaces are invalidated after a failed top-level call; all recogniser paths check duplicates and UTF-8 under exactly their option; the namespace's map cache stays complete. Namespaces are balanced and untouched by rejected calls; the struct member-name fast path is only reachable with the namespace disabled and unique names by construction. Names taken verbatim for the duplicate check come from the scanner's verdict on the same bytes. DisableNamespace never hits the parent frame (it follows the opening ReadToken/WriteToken on all paths). The seen-fields set only grows; both struct name indexes are filled for every flattened field.",
 		NotDecided: "later-wins/merge results under AllowDuplicateNames; equality after unescaping itself.",
 		Technique:  "guard dominance; path-sensitive go/cfg dataflow; sibling matrix",
 	},
 	"C09": {
-		Rules:      []string{"V1-1", "V1-2", "V1-3", "V1-4", "OPT-1", "FLAGSYM-1", "ADDR-1", "FULL-1", "FLAGPAIR-1", "DEADFIELD-1", "NUMWIDTH-1", "V1-5"},
-		Decided:    "every entry from v1 into the v2 API runs under DefaultOptionsV1 (or the explicit legacy set for the syntax-only helpers) and coder option fields are only extended; each v1 default flag has a constructor and is read by the implementation; under legacy error semantics the next value is syntax-checked before the target is touched; the streaming Decoder's offset flags are reset together; the v1 constants are consistent; marshal/unmarshal honour the two-sided legacy options symmetrically. The forcedAddr bit of every addressableValue matches its provenance (scratch copy / dereferenced pointer / part of parent), which is what v1's method-calling rules depend on; a scanner used as validator covers the whole input. The legacy pre-validation is given unmarshalDecode's own `last` flag; flags required together are never tested with one masked Get; conversions use the type's width; no latch field (v1 Encoder's sticky error) is left unwritten. Test-then-set option guards of the v1 coders test the option they set; the forcedAddr bit is not forged by indirect().",
+		Rules:      []string{"V1-1", "V1-2", "V1-3", "V1-4", "OPT-1", "FLAGSYM-1", "ADDR-1", "FULL-1", "FLAGPAIR-1", "DEADFIELD-1", "NUMWIDTH-1", "V1-5", "NULL-1"},
+		Decided:    "every entry from v1 into the v2 API runs under DefaultOptionsV1 (or the explicit legacy set for the syntax-only helpers) and coder option fields are only extended; each v1 default flag has a constructor and is read by the implementation; under legacy error semantics the next value is syntax-checked before the target is touched; the streaming Decoder's offset flags are reset together; the v1 constants are consistent; marshal/unmarshal honour the two-sided legacy options symmetrically. The forcedAddr bit of every addressableValue matches its provenance (scratch copy / dereferenced pointer / part of parent), which is what v1's method-calling rules depend on; a scanner used as validator covers the whole input. The legacy pre-validation is given unmarshalDecode's own `last` flag; flags required together are never tested with one masked Get; conversions use the type's width; no latch field (v1 Encoder's sticky error) is left unwritten. Test-then-set option guards of the v1 coders test the option they set; the forcedAddr bit is not forged by indirect(). A quoted or bare null leaves bool/number/string destinations unchanged under MergeWithLegacySemantics, in every scalar arshaler alike.",
 		NotDecided: "behavioural equality with the toolchain's encoding/json (a comparison of executions; static analysis of one side says nothing about the other), e.g. the indentation placeholder arithmetic of v1.Indent.",
 		Technique:  "provenance of option arguments; sibling agreement; path-sensitive must-precede",
 	},
@@ -91,32 +91,32 @@ var props = map[string]*PropDef{
 		Technique:  "structural wiring checks",
 	},
 	"C14": {
-		Rules:      []string{"NULL-1", "MERGE-1", "ANYPATH-1", "GLOBAL-2"},
-		Decided:    "every null branch zeroes its destination (unless MergeWithLegacySemantics) and returns nil; the non-merging untyped fast path is only taken for a nil interface; the slice closure zeroes reused elements and trims to the element count on every exit, the array closures zero the missing tail (including [N]byte from a binary string), the map closure seeds the scratch value from the existing entry and stores every entry back. No shared package-level map or slice can reach an unmarshal result.",
+		Rules:      []string{"NULL-1", "MERGE-1", "ANYPATH-1", "GLOBAL-2", "SCRATCH-1"},
+		Decided:    "every null branch zeroes its destination (unless MergeWithLegacySemantics) and returns nil; the non-merging untyped fast path is only taken for a nil interface; the slice closure zeroes reused elements and trims to the element count on every exit, the array closures zero the missing tail (including [N]byte from a binary string), the map closure seeds the scratch value from the existing entry and stores every entry back. No shared package-level map or slice can reach an unmarshal result. Scratch keys/values of member loops are reset before every decode; scalar null handling consults MergeWithLegacySemantics in every sibling.",
 		NotDecided: "the merge law over values.",
 		Technique:  "structural checks and path-sensitive must-follow",
 	},
 	"C15": {
-		Rules:      []string{"FIELD-1", "ALIAS-1", "UNWRITE-2", "UNWRITE-1", "MONO-1", "UNWRITE-3", "PREC-1"},
-		Decided:    "each tag option is consumed where documented (omitzero/omitempty/string/format/casing/embed), the dominance sort compares name, depth, explicit-name in that order and keeps only dominant fields, emitted order is declaration order, the unmarshal closure prefers the exact-name index, reports ambiguity and limits ErrUnknownName to RejectUnknownMembers without a fallback, matchFoldedName implements the documented casing rules, field index paths are not aliased. avoidFlush keeps everything omitempty may need to take back in the buffer (truth table); a local initialised from an arshaler's nonDefault only grows.",
+		Rules:      []string{"FIELD-1", "ALIAS-1", "UNWRITE-2", "UNWRITE-1", "MONO-1", "UNWRITE-3", "PREC-1", "SEENSET-1"},
+		Decided:    "each tag option is consumed where documented (omitzero/omitempty/string/format/casing/embed), the dominance sort compares name, depth, explicit-name in that order and keeps only dominant fields, emitted order is declaration order, the unmarshal closure prefers the exact-name index, reports ambiguity and limits ErrUnknownName to RejectUnknownMembers without a fallback, matchFoldedName implements the documented casing rules, field index paths are not aliased. avoidFlush keeps everything omitempty may need to take back in the buffer (truth table); a local initialised from an arshaler's nonDefault only grows. The seen-fields set only grows.",
 		NotDecided: "the breadth-first search over runtime type graphs and the folding function itself.",
 		Technique:  "structural checks over type-checked syntax",
 	},
 	"C16": {
-		Rules:      []string{"STALE-1", "TXN-2", "NAMES-1", "BUF-1", "FP-2", "PTR-1", "PTR-2", "POS-1", "POISON-1", "EOF-1", "INDEX-1"},
-		Decided:    "names used in error pointers are never stale buffer aliases; a rejected call changes no pointer/offset; names are copied out before buffers move and before pointers are built; offset bookkeeping of fetch/Flush; the struct fast path records the name offset; pointer escaping is applied exactly once and the reader/writer escape tables are inverse in RFC 6901 order; after-value errors are only built after a value was consumed. A clean EOF only at depth 1; the poison byte is undone for every copied name. No Index* result is compared with `> 0`.",
+		Rules:      []string{"STALE-1", "TXN-2", "NAMES-1", "BUF-1", "FP-2", "PTR-1", "PTR-2", "POS-1", "POISON-1", "EOF-1", "INDEX-1", "POS-2", "NAMES-2", "GUARD-1"},
+		Decided:    "names used in error pointers are never stale buffer aliases; a rejected call changes no pointer/offset; names are copied out before buffers move and before pointers are built; offset bookkeeping of fetch/Flush; the struct fast path records the name offset; pointer escaping is applied exactly once and the reader/writer escape tables are inverse in RFC 6901 order; after-value errors are only built after a value was consumed. A clean EOF only at depth 1; the poison byte is undone for every copied name. No Index* result is compared with `> 0`. Pointer and offset of a SemanticError around user code describe the same value (truth table); recording a name in the name stack does not depend on a validation option; Pointer's length guards are exact.",
 		NotDecided: "that appendStackPointer computes the right pointer for each `where`; the offset arithmetic (pos-n, legacy +len(What)).",
 		Technique:  "path-sensitive go/cfg dataflow; table inversion; append-source audit",
 	},
 	"C17": {
-		Rules:      []string{"PREC-1", "USER-1", "USER-2", "ERR-1", "ANYPATH-1", "ADDR-1", "MONO-1", "PUBLISH-1", "WITHIN-1", "UNSUP-1"},
-		Decided:    "method wrappers are installed in the documented precedence order, each falling back to the composition captured right before it; no methods on pointer/interface kinds; default, methods, time are composed in that order; caller functions are scanned in list order with ErrUnsupported fall-through and are consulted at every dispatch; bytes from user code are re-validated; user calls that receive the coder are bracketed by WithinArshalCall and the one-value check, with the ErrUnsupported fall-through only when nothing was touched; the any fast paths respect any-applicable caller functions. forcedAddr provenance (pointer-receiver methods on addressable and non-addressable values); nonDefault only grows; a cached arshaler is complete before it is published. The sanitiser of non-skippable functions and the dispatcher recognise ErrUnsupported the same way (errors.Is).",
+		Rules:      []string{"PREC-1", "USER-1", "USER-2", "ERR-1", "ANYPATH-1", "ADDR-1", "MONO-1", "PUBLISH-1", "WITHIN-1", "UNSUP-1", "SHARE-1"},
+		Decided:    "method wrappers are installed in the documented precedence order, each falling back to the composition captured right before it; no methods on pointer/interface kinds; default, methods, time are composed in that order; caller functions are scanned in list order with ErrUnsupported fall-through and are consulted at every dispatch; bytes from user code are re-validated; user calls that receive the coder are bracketed by WithinArshalCall and the one-value check, with the ErrUnsupported fall-through only when nothing was touched; the any fast paths respect any-applicable caller functions. forcedAddr provenance (pointer-receiver methods on addressable and non-addressable values); nonDefault only grows; a cached arshaler is complete before it is published. The sanitiser of non-skippable functions and the dispatcher recognise ErrUnsupported the same way (errors.Is). A joined list of caller functions owns its backing array.",
 		NotDecided: "which method actually runs for a given value (reflection over runtime types).",
 		Technique:  "structural ordering checks; bracket rule; path-sensitive consult-before-dispatch",
 	},
 	"C18": {
-		Rules:      []string{"POOL-1", "POOL-2", "POOL-3", "POOL-4", "GLOBAL-1", "ONCE-1", "DET-1", "INTERN-1", "CYCLE-1", "ESCAPE-1", "STALE-2", "GLOBAL-2", "NILTEST-1", "PUBLISH-1", "WITHIN-1", "DEADFIELD-1"},
-		Decided:    "pooled coders are released to the matching pool by defer; every field of the resettable coder structures is reset or in the reviewed carry-over table; pooled buffers and the decoder's transient views only leave a call through a copy; coders are never reset onto leftover bytes; package-level state is immutable after init or concurrency-safe and no goroutines are started; lazily initialised arshaler state is read only after once.Do; map iteration order reaches the output only when Deterministic is off (or one entry); the cycle-detection set is emptied by the deferred leave; the string cache returns only equal strings. Transient decoder views are not used after the decoder advances; shared package-level values do not escape; a cached arshaler is complete before publication; no field is tested after it was cleared.",
+		Rules:      []string{"POOL-1", "POOL-2", "POOL-3", "POOL-4", "GLOBAL-1", "ONCE-1", "DET-1", "INTERN-1", "CYCLE-1", "ESCAPE-1", "STALE-2", "GLOBAL-2", "NILTEST-1", "PUBLISH-1", "WITHIN-1", "DEADFIELD-1", "SHARE-1"},
+		Decided:    "pooled coders are released to the matching pool by defer; every field of the resettable coder structures is reset or in the reviewed carry-over table; pooled buffers and the decoder's transient views only leave a call through a copy; coders are never reset onto leftover bytes; package-level state is immutable after init or concurrency-safe and no goroutines are started; lazily initialised arshaler state is read only after once.Do; map iteration order reaches the output only when Deterministic is off (or one entry); the cycle-detection set is emptied by the deferred leave; the string cache returns only equal strings. Transient decoder views are not used after the decoder advances; shared package-level values do not escape; a cached arshaler is complete before publication; no field is tested after it was cleared. A joined list of caller functions owns its backing array (no write into capacity shared with a sibling list).",
 		NotDecided: "absence of data races in general (only the library's own shared state is audited); byte-identical output under Deterministic when AllowDuplicateNames lets two keys collide.",
 		Technique:  "pairing/escape rules over type-checked syntax; path-sensitive dominance",
 	},
